@@ -1,40 +1,12 @@
 //! hsv: runtime-monitoring harness for http-serve. One invocation runs one property's
 //! workload in one leg and writes a JSON result file; /verif/check drives it.
 
-mod alloc;
-mod bodymon;
-mod driver;
-mod e1;
-mod e2;
-mod e3;
-mod ent;
-mod gen;
-mod model;
-mod p_cross;
-mod p_dir;
-mod p_file;
-mod p_negot;
-mod p_sched;
-mod p_serve;
-mod p_stream;
-mod util;
 
-use driver::{Ctx, Leg, Prop, Tier};
+use hsv::driver::{self, Ctx, Leg, Tier};
+use hsv::{alloc, props, util};
 
 #[global_allocator]
 static GLOBAL: alloc::Counting = alloc::Counting;
-
-fn props() -> Vec<Box<dyn Prop>> {
-    let mut v: Vec<Box<dyn Prop>> = Vec::new();
-    p_serve::register(&mut v);
-    p_stream::register(&mut v);
-    p_sched::register(&mut v);
-    p_cross::register(&mut v);
-    p_negot::register(&mut v);
-    p_file::register(&mut v);
-    p_dir::register(&mut v);
-    v
-}
 
 fn main() {
     let args: Vec<String> = std::env::args().collect();
@@ -53,6 +25,7 @@ fn main() {
     };
     let mut out: Option<String> = None;
     let mut replay: Option<String> = None;
+    let mut fuzz_artifact: Option<String> = None;
     let mut i = 2;
     while i < args.len() {
         let val = |i: usize| args.get(i + 1).cloned().unwrap_or_default();
@@ -102,6 +75,10 @@ fn main() {
                 replay = Some(val(i));
                 i += 1;
             }
+            "--fuzz-artifact" => {
+                fuzz_artifact = Some(val(i));
+                i += 1;
+            }
             other => {
                 eprintln!("unknown argument {}", other);
                 std::process::exit(2);
@@ -124,6 +101,18 @@ fn main() {
         }
     };
     util::install_quiet_panic_hook();
+    if let Some(path) = fuzz_artifact {
+        // a libFuzzer artifact: decode it exactly as the fuzz target does and replay it natively
+        let bytes = std::fs::read(&path).expect("artifact readable");
+        let case = hsv::fuzzdec::artifact_to_case(&args[1], &bytes);
+        let result = driver::run(prop.as_ref(), &ctx, Some(&case));
+        let text = serde_json::to_string_pretty(&result).unwrap();
+        match out {
+            Some(p) => std::fs::write(p, text).expect("write result"),
+            None => println!("{}", text),
+        }
+        return;
+    }
     let replay_case = replay.map(|path| {
         let text = std::fs::read_to_string(&path).expect("replay file readable");
         let v: serde_json::Value = serde_json::from_str(&text).expect("replay file is JSON");
